@@ -183,7 +183,7 @@ fn where_strategy() -> BoxedStrategy<Where> {
     .boxed()
 }
 
-fn side_op() -> BoxedStrategy<SideOp> {
+pub fn side_op() -> BoxedStrategy<SideOp> {
     prop_oneof![
         4 => (where_strategy(), 0u8..6).prop_map(|(w, v)| SideOp::Set(w, v)),
         2 => where_strategy().prop_map(SideOp::Delete),
